@@ -1734,15 +1734,10 @@ func parseNestedFunctionsInternal(expr string, aggFields []types.AggregationFiel
 		if fn, exists := functions.Get(funcName); exists {
 			switch fn.GetType() {
 			case functions.TypeAggregation, functions.TypeAnalytical, functions.TypeWindow:
-				// 生成唯一占位符
-				callHash := 0
-				for _, c := range fullFuncCall {
-					callHash = callHash*31 + int(c)
-				}
-				if callHash < 0 {
-					callHash = -callHash
-				}
-				placeholder := fmt.Sprintf("__%s_%d__", funcName, callHash)
+				// 生成唯一占位符: the call text itself, hex-encoded. A hash of the text is not
+				// unique (SUM(Aa) and SUM(BB) share every 31-polynomial hash), and two calls
+				// of one query that share a placeholder read each other's aggregate.
+				placeholder := fmt.Sprintf("__%s_%x__", funcName, fullFuncCall)
 
 				// 解析函数参数
 				inputField := strings.TrimSpace(funcParam)
